@@ -59,9 +59,30 @@ def _pairs_cost(pairs, sub, ins, dele):
     return c
 
 
+def _mixed(case):
+    n = case['n']
+    kinds = case['kinds']
+    mk = lambda k, c: ('s%d' % int(c)) if k == 's' else int(c)
+    s = [mk(kinds[i], c) for i, c in enumerate(case['source'])]
+    t = [mk(kinds[n + j], c) for j, c in enumerate(case['target'])]
+    return s, t
+
+
 def _violates(case):
     """evaluate the property on the real code -> (violated?, detail)"""
     fn = case['fn']
+    if fn == 'mixed':
+        s, t = _mixed(case)
+        d = sa.levenshtein_distance(s, t)
+        ref = ref_dp(s, t)
+        al = sa.levenshtein_alignment(s, t)
+        proj = [b for a, b in al if b is not None]
+        if d != ref:
+            return True, 'levenshtein_distance(%r, %r) = %r, true minimum %r' % (s, t, d, ref)
+        if [type(x) for x in proj] != [type(x) for x in t] or list(proj) != t:
+            return True, 'alignment of %r, %r gives target projection %r' % (s, t, proj)
+        return False, 'ok'
+
     if fn == 'summary':
         r = es.ErrorsSummary.from_lists(case['ref'], case['hyp'])
         d = ref_dp(case['ref'], case['hyp'])
@@ -147,6 +168,9 @@ def replay(case):
 def check_witness(w):
     """the symbolic engine predicted `expect` for these inputs: compare with the real code"""
     fn = w['fn']
+    if fn == 'mixed':
+        s, t = _mixed(w)
+        return {'match': int(sa.levenshtein_distance(s, t)) == int(w['expect']), 'got': int(sa.levenshtein_distance(s, t))}
     if fn == 'summary':
         r = es.ErrorsSummary.from_lists(w['ref'], w['hyp'])
         got = dict(nb_errors=int(r.nb_errors), nb_subs=int(r.nb_subs), nb_inss=int(r.nb_inss), nb_dels=int(r.nb_dels))
